@@ -100,6 +100,7 @@ def detect(name, tier='quick', checks=None):
 
 # changes filed under one property whose observable effect is (also) another property's subject
 SIBLINGS = {
+    'C01-r15-1': ['C01', 'C02'],  # an API name is renamed from a later `local` declaration on: reserved names and the renaming relation are C02's
     'C04-r14-2': ['C04', 'C07'],  # the lexer fails on a long string when a matching `]]` stands earlier in the chunk: one-chunk lexing is C07's subject
     'C13-r8-2': ['C13', 'C05'],   # decompress_code runs past the declared length: the code codec is C05's subject
     'C01-r2-1': ['C01', 'C02'],   # label/goto renamed inconsistently: the renaming relation is C02's oracle
